@@ -1,32 +1,92 @@
 import SwiftMT.Dispatch
+import SwiftMT.MParser
+import Driver.Hex
 /-
 Line-protocol driver over the executable model: one request per line on stdin, one answer per line on
-stdout.  Arguments are space separated; texts travel hex-encoded (UTF-8 bytes).
+stdout.  Arguments are space separated; texts travel hex-encoded (UTF-8 bytes, "-" = empty).
 Imports only model files (no proofs, no Mathlib) so that it links as a `lean_exe`.
 -/
-open SwiftMT
+open SwiftMT Driver
 
 def resStr : Dispatch.Res → String
   | .ok w b => s!"ok {w} {b}"
   | .mismatch => "mismatch"
   | .unsupported => "unsupported"
 
+def c12 (args : List String) : String :=
+  match args with
+  | ["auto", c] => match c.toNat? with
+      | some c => resStr (Dispatch.autoParse c) | none => "bad-op"
+  | ["typed", r, a] => match r.toNat?, a.toNat? with
+      | some r, some a => resStr (Dispatch.typedParse r a) | _, _ => "bad-op"
+  | ["wrapper", c] => match c.toNat? with
+      | some c => (match Dispatch.wrapperType c with | some t => s!"some {t}" | none => "none") | none => "bad-op"
+  | ["pparse", c] => match c.toNat? with
+      | some c => resStr (Dispatch.pluginParseRes c) | none => "bad-op"
+  | ["pvalidate", c] => match c.toNat? with
+      | some c => resStr (Dispatch.pluginValidateRes c) | none => "bad-op"
+  | ["wvalidate", c] => match c.toNat? with
+      | some c => resStr (Dispatch.wrapperValidateRes c) | none => "bad-op"
+  | ["publish", al, c] => match c.toNat? with
+      | some c => resStr (Dispatch.publishRes (al == "1") c) | none => "bad-op"
+  | _ => "bad-op"
+
+def perr : PErr → String
+  | .duplicate _ => "dup"
+  | .notFoundOptional _ => "nfo"
+  | .missing t => s!"missing:{hex t}"
+
+/-- One `MessageParser` operation; returns the printed result and the new state. -/
+def mpOp (s : PState) (op : String) : String × PState :=
+  match op.splitOn ":" with
+  | ["pf", t] => match unhex t with
+    | some tag => (match parseFieldRaw s tag with
+        | .ok (c, s') => (s!"ok:{hex c}", s') | .error e => (s!"err:{perr e}", s))
+    | none => ("bad-op", s)
+  | ["po", t] => match unhex t with
+    | some tag => (match parseOptionalRaw s tag with
+        | (some c, s') => (s!"some:{hex c}", s') | (none, s') => ("none", s'))
+    | none => ("bad-op", s)
+  | ["pv", t] => match unhex t with
+    | some base => (match parseVariantRaw s base with
+        | .ok ((v, c), s') => (s!"ok:{hex v}:{hex c}", s') | .error e => (s!"err:{perr e}", s))
+    | none => ("bad-op", s)
+  | ["pov", t] => match unhex t with
+    | some base => (match parseOptionalVariantRaw s base with
+        | (some (v, c), s') => (s!"some:{hex v}:{hex c}", s') | (none, s') => ("none", s'))
+    | none => ("bad-op", s)
+  | ["df", t] => match unhex t with
+    | some tag => (s!"{detectField s tag}", s) | none => ("bad-op", s)
+  | ["dvo", t] => match unhex t with
+    | some base => ((match detectVariantOptional s base with | some v => s!"some:{hex v}" | none => "none"), s)
+    | none => ("bad-op", s)
+  | ["pk", t] => match unhex t with
+    | some base => ((match peekFieldVariant s base with | some v => s!"some:{hex v}" | none => "none"), s)
+    | none => ("bad-op", s)
+  | ["ic"] => (s!"{isComplete s}", s)
+  | ["rem"] => (s!"{byteLen s.rest}", s)
+  | ["dup", b] => ("ok", { s with allowDup := b == "1" })
+  | _ => ("bad-op", s)
+
+def mpRun (s : PState) (ops : List String) : List String :=
+  match ops with
+  | [] => []
+  | op :: rest => let (o, s') := mpOp s op; o :: mpRun s' rest
+
 def handle (args : List String) : String :=
   match args with
-  | ["c12", "auto", c] => match c.toNat? with
-      | some c => resStr (Dispatch.autoParse c) | none => "bad-op"
-  | ["c12", "typed", r, a] => match r.toNat?, a.toNat? with
-      | some r, some a => resStr (Dispatch.typedParse r a) | _, _ => "bad-op"
-  | ["c12", "wrapper", c] => match c.toNat? with
-      | some c => (match Dispatch.wrapperType c with | some t => s!"some {t}" | none => "none") | none => "bad-op"
-  | ["c12", "pparse", c] => match c.toNat? with
-      | some c => resStr (Dispatch.pluginParseRes c) | none => "bad-op"
-  | ["c12", "pvalidate", c] => match c.toNat? with
-      | some c => resStr (Dispatch.pluginValidateRes c) | none => "bad-op"
-  | ["c12", "wvalidate", c] => match c.toNat? with
-      | some c => resStr (Dispatch.wrapperValidateRes c) | none => "bad-op"
-  | ["c12", "publish", al, c] => match c.toNat? with
-      | some c => resStr (Dispatch.publishRes (al == "1") c) | none => "bad-op"
+  | "c12" :: rest => c12 rest
+  | ["ext", i, t] => match unhex i, unhex t with
+    | some input, some tag => (match extractFieldContent input tag with
+        | some (c, n) => s!"some {hex c} {byteLen (input.take n)}"
+        | none => "none")
+    | _, _ => "bad-op"
+  | ["marker", i] => match unhex i with
+    | some input => s!"{isFieldMarker input}"
+    | none => "bad-op"
+  | "mp" :: i :: ops => match unhex i with
+    | some input => ";".intercalate (mpRun (PState.init input) ops)
+    | none => "bad-op"
   | _ => "bad-op"
 
 partial def loop (h : IO.FS.Stream) (out : IO.FS.Stream) : IO Unit := do
